@@ -63,7 +63,7 @@ def expand_long(item):
     return (unit * (length // max(1, len(unit)) + 1))[:max(0, length - len(tail))] + tail
 
 
-def edit_footer(path, edits):
+def edit_footer(path, edits, edits_nat=()):
     """Rewrite the footer the reader opens (the file itself / _metadata of a directory) the way another writer could have
     written it: drop one bound of a chunk's statistics, or move min/max into the min_value/max_value fields.
     edits: [[row group index, column name, "drop_min"|"drop_max"|"value_fields"|"drop_null_count"], ...]"""
@@ -93,6 +93,27 @@ def edit_footer(path, edits):
                     st.max_value = None
                 elif action == "drop_null_count":
                     st.null_count = None
+                elif action in ("nan_min", "nan_max", "nan_both", "inf_bounds"):
+                    # bounds another writer may record for a chunk that holds NaN / NaT cells (or, legitimately, +-inf)
+                    import struct as _st
+                    t = col.meta_data.type
+                    ct = col.meta_data  # noqa
+                    if t == 5:
+                        nanb, lo, hi = _st.pack("<d", float("nan")), _st.pack("<d", float("-inf")), _st.pack("<d", float("inf"))
+                    elif t == 4:
+                        nanb, lo, hi = _st.pack("<f", float("nan")), _st.pack("<f", float("-inf")), _st.pack("<f", float("inf"))
+                    elif t == 2 and name in edits_nat:
+                        nanb, lo, hi = _st.pack("<q", -2**63), None, None          # NaT
+                    else:
+                        continue
+                    if action == "inf_bounds":
+                        if lo is not None and st.min is not None:
+                            st.min, st.max = lo, hi
+                    else:
+                        if action in ("nan_min", "nan_both") and (st.min is not None or st.min_value is not None):
+                            st.min, st.min_value = nanb, None
+                        if action in ("nan_max", "nan_both") and (st.max is not None or st.max_value is not None):
+                            st.max, st.max_value = nanb, None
                 elif action == "value_fields":
                     if st.max is not None:
                         st.max_value, st.max = st.max, None
@@ -132,7 +153,7 @@ def write_dataset(spec, root):
     finally:
         writer.MAX_PAGE_SIZE, writer.DATAPAGE_VERSION = old
     if spec.get("footer_edit"):
-        edit_footer(path, spec["footer_edit"])
+        edit_footer(path, spec["footer_edit"], edits_nat=[n for n, c in spec["cols"].items() if c["kind"] == "ts"])
     return path
 
 
@@ -270,8 +291,22 @@ def gen_dataset_w3(rng, flavour):
                 pv += [rng.choice(PART_STR)] * s_
             cols["p"] = {"kind": "str", "values": pv}
             spec.update(scheme="hive", partition_on=["p"])
+    elif flavour == "oddpart":
+        # directory names with characters that other tools escape / that look like escapes: what the filter compares a constant
+        # with must be the label the rows read back, whatever the decoding of the directory text is
+        pool = rng.sample(["a%20b", "%41b", "a+b", "u", "a%25b", "x%2Fy", "v w", "1%2E5"], 3)
+        pv = []
+        for s_ in sizes:
+            x = rng.choice(pool)
+            pv += [x if rng.random() < 0.9 else rng.choice(pool) for _ in range(s_)]
+        cols = {"p": {"kind": "str", "values": pv, "odd": True},
+                "i": {"kind": "int", "values": [rng.randrange(0, 6) for _ in range(sum(sizes))]}}
+        spec.update(scheme=rng.choice(["hive", "hive", "drill"]), partition_on=["p"], stats=rng.choice([True, False]))
+        if spec["scheme"] == "drill":
+            cols["dir0"] = cols.pop("p")
+            spec["partition_on"] = ["dir0"]
     elif flavour == "onesided":
-        base = gen_dataset(rng, kinds=rng.sample(["int", "str", "float", "nint", "ts"], rng.choice([2, 3])), allow_parts=rng.random() < 0.3)
+        base = gen_dataset(rng, kinds=rng.sample(["int", "str", "float", "float", "nint", "ts", "ts"], rng.choice([2, 3])), allow_parts=rng.random() < 0.3)
         base["stats"] = True
         base["flavour"] = flavour
         offs = base["offsets"] + [base["n"]]
@@ -284,7 +319,10 @@ def gen_dataset_w3(rng, flavour):
         for gi in range(len(offs) - 1):
             for name in base["cols"]:
                 if name != "rid" and name not in base["partition_on"] and rng.random() < 0.6:
-                    edits.append([gi, name, rng.choice(["drop_min", "drop_min", "drop_max", "drop_max", "value_fields", "drop_null_count"])])
+                    acts = ["drop_min", "drop_min", "drop_max", "drop_max", "value_fields", "drop_null_count"]
+                    if base["cols"][name]["kind"] in ("float", "ts"):
+                        acts += ["nan_min", "nan_max", "nan_both", "nan_both", "inf_bounds", "nan_max"]
+                    edits.append([gi, name, rng.choice(acts)])
         base["footer_edit"] = edits
         return base
     else:
@@ -296,6 +334,43 @@ def gen_dataset_w3(rng, flavour):
         a += s_
     spec.update(n=n, offsets=offsets, cols={"rid": {"kind": "int", "values": list(range(n))}, **cols})
     return spec
+
+
+def shifted_spec(spec, k):
+    """a dataset of IDENTICAL shape (schema, row-group sizes, relative part names, byte layout of the fixed-width chunks) whose
+    numeric / temporal values are shifted by k: what a cache keyed by layout instead of by file confuses"""
+    import copy
+    out = copy.deepcopy(spec)
+    for name, c in out["cols"].items():
+        if name == "rid" or name in out.get("partition_on", []):
+            continue
+        if c["kind"] in ("int", "nint", "ts", "uint", "tstz") and not c.get("big"):
+            c["values"] = [None if v is None else v + k for v in c["values"]]
+        elif c["kind"] == "float":
+            c["values"] = [None if v is None else v + float(k) for v in c["values"]]
+    out.pop("prelude", None)
+    return out
+
+
+def gen_twin_programs(rng, spec):
+    """two DIFFERENT programs whose constants are containers that print alike (numpy array / pandas Index / tuple / list with the
+    deciding values in the abbreviated middle, float arrays that differ in the 12th digit); None when no numeric data column"""
+    cols = [c for c in ("i", "n", "f", "rid") if c in spec["cols"] and c not in spec["partition_on"] and c != spec.get("index")]
+    if not cols:
+        return None
+    cname = rng.choice(cols)
+    present = sorted({v for v in spec["cols"][cname]["values"] if v is not None})
+    isf = spec["cols"][cname]["kind"] == "float"
+    a = rng.choice(present) if present else 1
+    b = rng.choice([x for x in present if x != a] or [a + 1])
+    form = rng.choice(["np", "np", "index", "list", "tuple"])
+    if isf and rng.random() < 0.5:
+        va, vb, pad = [a, 77.0], [a + 1e-12, 77.0], 0
+    else:
+        va, vb, pad = [a], [b], rng.choice([0, 150, 1100, 1100])
+    op = rng.choice(["in", "in", "in", "not in"])
+    mk = lambda vals: {"flat": True, "groups": [[[cname, op, {"arr": {"form": form, "vals": vals, "pad": pad, "float": isf}}]]]}
+    return mk(va), mk(vb)
 
 
 def text_kind(k):
@@ -391,6 +466,12 @@ def _const_pool(rng, spec, name, chunks):
         if r < 0.9:
             return {"long": [unit, L + 1, tail]}
         return {"long": [unit, L, rng.choice(["0", "z", "~", ""])]}
+    if k == "str" and c.get("odd"):
+        from urllib.parse import unquote, unquote_plus, quote
+        forms = []
+        for x in present:
+            forms += [x, unquote(x), unquote_plus(x), quote(x, safe="")]
+        return rng.choice(forms or ["u"])
     if k in ("str", "cat"):
         pool = present + STR_POOL if k == "str" else present + ["a", "b", "c", "d", "e"]
         if present and rng.random() < 0.6:
@@ -548,6 +629,18 @@ def coq_str(s):
     return '"%s"' % s
 
 
+def bound_pv(x):
+    """a statistics bound as the model sees it: a NaN / NaT bound (footers of other writers) bounds nothing and enters as absent -
+    the reading under which "statistics are valid bounds" can hold at all; the code must treat it the same way (it does since the
+    fix `a NaN / NaT statistic bounds nothing`), else the correspondences disagree"""
+    try:
+        if x is not None and not isinstance(x, (str, bytes, list, tuple)) and bool(x != x):
+            return "PNone"
+    except Exception:      # noqa
+        pass
+    return to_pv(x)
+
+
 def scalar_of_bound(v):
     """what filter_out_stats hands to filter_val for a bound, as a Python scalar (None when absent)"""
     if v is None:
@@ -600,7 +693,7 @@ def model_rowgroups(pf, dnf, rows=None, with_cells=None):
                 st = "None"
             else:
                 st = "(Some {| st_null_count := %s; st_min := %s; st_max := %s |})" % (
-                    "None" if b[0] is None else "(Some (%d))" % b[0], to_pv(scalar_of_bound(b[1])), to_pv(scalar_of_bound(b[2])))
+                    "None" if b[0] is None else "(Some (%d))" % b[0], bound_pv(scalar_of_bound(b[1])), bound_pv(scalar_of_bound(b[2])))
             cols.append("{| c_name := %s; c_num_values := %d; c_stats := %s |}" % (coq_str(name), column.meta_data.num_values, st))
         fp = rg.columns[0].file_path
         if fp is None:
